@@ -10,7 +10,7 @@ From Coq Require Import List ZArith Bool.
 (* Model.ProxyCheck (the correspondence checker used by the case shards) is imported so that it is built with this file *)
 From MV Require Import Model.ProxyCheck.
 From MV Require Import Model.Proxy Model.ProxySpec Proofs.ProxyReach Proofs.ProxyFamily Proofs.ProxyFam Proofs.ProxyRefute
-  Proofs.ProxyThm Proofs.ProxyGen Proofs.ProxySrc Gen.ProxyTokens.
+  Proofs.ProxyThm Proofs.ProxySndErr Proofs.ProxyGen Proofs.ProxySrc Gen.ProxyTokens.
 Import ListNotations.
 Open Scope Z_scope.
 
@@ -83,6 +83,72 @@ Theorem c03_exactly_one_outcome_partial_family : forall c, In c family -> forall
   outcome c sched (final proxy_src c sched) (summ proxy_src c sched).
 Proof. exact c03_outcome_family. Qed.
 Print Assumptions c03_exactly_one_outcome_partial_family.
+
+(* ---- the downstream sender (the stream layer) fails ----
+   The sender's results are environment inputs of the append steps: [with_snd_err c h d t] is configuration [c] in which
+   AppendHeaders / AppendData / AppendTrailers return an error (h / d / t).  downStream.appendHeaders only logs the error and goes
+   on - to endStream() when the reply is complete - and the results of AppendData / AppendTrailers are discarded (switch read
+   from the source on this run): *)
+Theorem c03_append_error_logged_and_continued : append_error_continues proxy_src = true.
+Proof. exact (eq_refl true). Qed.
+(* so the request state machine does not depend on them at all (every configuration, every state, every schedule) ... *)
+Theorem c03_sender_errors_change_nothing : forall c h d t sched s,
+  run proxy_src (with_snd_err c h d t) s sched = run proxy_src c s sched.
+Proof. exact snd_err_run. Qed.
+Print Assumptions c03_sender_errors_change_nothing.
+(* ... cleanStream's effects happen at most once over histories with sender errors (instance of c03_clean_once, which holds for
+   every configuration), and the family statements hold over them: one well-formed reply attempt, clean / log / destroy at most
+   once, and at quiescence the stream IS cleaned exactly once with an explained outcome *)
+Theorem c03_clean_once_with_sender_errors : forall src c h d t rc0 sched,
+  let '(s, o) := run src (with_snd_err c h d t) (init_st rc0) sched in
+  (count_gauge o <= 1)%nat /\ (cleaned s = true <-> count_gauge o = 1%nat) /\
+  count_log o = count_gauge o /\ count_destroy o = count_gauge o.
+Proof. exact (fun src c h d t => clean_once src (with_snd_err c h d t)). Qed.
+Print Assumptions c03_clean_once_with_sender_errors.
+Theorem c03_at_most_one_reply_with_sender_errors_family : forall c, In c family -> forall h d t sched, Forall allowed sched ->
+  c03_safe (summ proxy_src (with_snd_err c h d t) sched).
+Proof. exact c03_safe_snd_err. Qed.
+Print Assumptions c03_at_most_one_reply_with_sender_errors_family.
+Theorem c03_exactly_one_outcome_with_sender_errors_family : forall c, In c family -> forall h d t sched, Forall allowed sched ->
+  quiescent (final proxy_src (with_snd_err c h d t) sched) = true -> no_defect (final proxy_src (with_snd_err c h d t) sched) = true ->
+  outcome (with_snd_err c h d t) sched (final proxy_src (with_snd_err c h d t) sched) (summ proxy_src (with_snd_err c h d t) sched).
+Proof. exact c03_outcome_snd_err. Qed.
+Print Assumptions c03_exactly_one_outcome_with_sender_errors_family.
+(* the other handling (resetStream() and return on a refused header; switch set back): a header-only reply whose headers are
+   refused is never cleaned - resetStream() does nothing once upstreamProcessDone is set, endStream() is skipped: no cleanStream,
+   no filter destroy, gauge stuck; a reply with a body is reset and cleaned once; the handling in the tree cleans once *)
+Theorem c03_sender_error_refuted_reset_and_return :
+  ~ (forall c sched, quiescent (final src_append_error_resets c sched) = true -> no_defect (final src_append_error_resets c sched) = true ->
+       cleaned (final src_append_error_resets c sched) = true).
+Proof. exact refuted_sender_error. Qed.
+Print Assumptions c03_sender_error_refuted_reset_and_return.
+Example c03_sender_error_never_cleaned :
+  wdone (final src_append_error_resets cfg_hdr_refused (sched_answered false)) = true /\
+  quiescent (final src_append_error_resets cfg_hdr_refused (sched_answered false)) = true /\
+  cleaned (final src_append_error_resets cfg_hdr_refused (sched_answered false)) = false /\
+  g_started (summ src_append_error_resets cfg_hdr_refused (sched_answered false)) = true /\
+  g_clean (summ src_append_error_resets cfg_hdr_refused (sched_answered false)) = 0%nat /\
+  g_destroy (summ src_append_error_resets cfg_hdr_refused (sched_answered false)) = 0%nat /\
+  g_gauge (summ src_append_error_resets cfg_hdr_refused (sched_answered false)) = 0 /\
+  cleaned (final src_append_error_resets cfg_hdr_refused (sched_answered true)) = true /\
+  g_clean (summ src_append_error_resets cfg_hdr_refused (sched_answered true)) = 1%nat /\
+  g_ended (summ src_append_error_resets cfg_hdr_refused (sched_answered true)) = false /\
+  cleaned (final src_tree cfg_hdr_refused (sched_answered false)) = true /\
+  g_clean (summ src_tree cfg_hdr_refused (sched_answered false)) = 1%nat /\
+  g_destroy (summ src_tree cfg_hdr_refused (sched_answered false)) = 1%nat /\
+  g_gauge (summ src_tree cfg_hdr_refused (sched_answered false)) = -1 /\
+  g_ended (summ src_tree cfg_hdr_refused (sched_answered false)) = true.
+Proof. exact witness_sender_error_never_cleaned. Qed.
+(* non-vacuity: a family member whose reply headers, body and trailers are all refused ends cleaned once, filters destroyed once *)
+Example c03_sender_error_example :
+  let c0 := mk false false false RouteForward 2 true 0 [] true 1 [] [] [PoolConnFail] in
+  let c := with_snd_err c0 true true true in
+  let sched := drive ++ [Env (EvUpResp 1 200 true true)] ++ drive in
+  In c0 family /\ Forall allowed sched /\
+  quiescent (final proxy_src c sched) = true /\ no_defect (final proxy_src c sched) = true /\ cleaned (final proxy_src c sched) = true /\
+  g_hdr (summ proxy_src c sched) = 1%nat /\ g_ended (summ proxy_src c sched) = true /\ g_clean (summ proxy_src c sched) = 1%nat /\
+  g_destroy (summ proxy_src c sched) = 1%nat /\ 1 + g_gauge (summ proxy_src c sched) = 0.
+Proof. exact snd_err_example_holds. Qed.
 
 (* ---- time-out liveness ---- *)
 (* a parked worker is always guarded by an armed timer (so a silent upstream cannot hang the request) ... *)
